@@ -1,3 +1,44 @@
-From Coq Require Import List.
-Theorem placeholder_C11 : True. Proof. exact I. Qed.
-Print Assumptions placeholder_C11.
+(* C11 - Canonical form is a true normal form. *)
+From Coq Require Import List Bool Permutation.
+From Y0 Require Import Base.ListSet Dsl.Syntax Dsl.Build Dsl.Canon Proofs.SortP Proofs.DslP.
+Import ListNotations.
+
+(* Full statement (kept visible). Proved below: the sorting core (idempotence; independence of the presentation
+   order when no two factors tie) and, relative to the order properties of the expression key, Product.safe.
+   The whole-expression statement is evaluated on the model inside Coq for every generated case (Corr/Dsl.v CCanon). *)
+Definition C11_statement : Prop :=
+  forall o e, is_err (canonicalize false o e) = false ->
+    canonicalize false o (canonicalize false o e) = canonicalize false o e.
+
+Theorem C11_sorting_is_idempotent {A} (lt : A -> A -> bool) :
+  (forall a, lt a a = false) -> (forall a b c, lt a b = true -> lt b c = true -> lt a c = true) ->
+  forall l, stable_sort lt (stable_sort lt l) = stable_sort lt l.
+Proof. exact (stable_sort_idempotent lt). Qed.
+
+Theorem C11_sorting_ignores_presentation_order {A} (lt : A -> A -> bool) :
+  (forall a, lt a a = false) -> (forall a b c, lt a b = true -> lt b c = true -> lt a c = true) ->
+  forall l l', (forall a b, In a l -> In b l -> lt a b = false -> lt b a = false -> a = b) ->
+  Permutation l l' -> stable_sort lt l = stable_sort lt l'.
+Proof. exact (stable_sort_perm_invariant lt). Qed.
+
+Theorem C11_product_ignores_factor_order_partial :
+  (forall a, expr_lt a a = false) -> (forall a b c, expr_lt a b = true -> expr_lt b c = true -> expr_lt a c = true) ->
+  forall es es',
+    forallb (fun e => negb (is_err e)) es = true ->
+    (forall a b, In a es -> In b es -> expr_lt a b = false -> expr_lt b a = false -> a = b) ->
+    Permutation es es' -> prod_safe es = prod_safe es'.
+Proof. exact (prod_safe_perm false). Qed.
+
+Theorem C11_old_product_order_refuted :
+  exists es es', Permutation es es' /\ prod_safe_gen true es <> prod_safe_gen true es'.
+Proof. exact prod_safe_old_order_dependent. Qed.
+
+Theorem C11_old_canonicalize_not_idempotent_refuted :
+  canonicalize true idem_order (canonicalize true idem_order idem_witness) <> canonicalize true idem_order idem_witness.
+Proof. exact canonicalize_old_not_idempotent. Qed.
+
+Print Assumptions C11_sorting_is_idempotent.
+Print Assumptions C11_sorting_ignores_presentation_order.
+Print Assumptions C11_product_ignores_factor_order_partial.
+Print Assumptions C11_old_product_order_refuted.
+Print Assumptions C11_old_canonicalize_not_idempotent_refuted.
